@@ -51,6 +51,12 @@ class Model:
         self.created.add(k)
 
     def section(self, i):
+        """BaseBuilder::section() (builder.cpp): every section has exactly one SectionNode.
+        * node not active (never added, or removed by an edit): `add_after(node, last_node())` - it becomes the last node - and the
+          cursor is that node. With an empty list last_node() is null: not defined, the generator never does it.
+        * node active (wherever edits have put it): the cursor goes to the last node of that section's block, i.e. the node before
+          the next SectionNode in list order, or the last node of the list when no SectionNode follows.
+        Nodes in front of the first SectionNode are serialized into the section the Assembler starts in (.text)."""
         k = "S%d" % i
         if k not in self.nodes:
             if not self.nodes:
@@ -490,7 +496,9 @@ class ScriptGen:
         elif kind == "CM":
             out.append(self._new(st, "CM", "cm_%d" % st["next_cid"]))
         elif kind == "SE":
-            s = rng.below(st["nsec"] + 1)
+            s = st.pop("force_sec", None)
+            if s is None:
+                s = rng.below(st["nsec"] + 1)
             out.append(self._new(st, "SE", "%d" % s, sec=s))
             st["cursec"] = s
         # anything but a small instruction / comment ends the window in which a short jump may go backwards
@@ -541,7 +549,7 @@ class ScriptGen:
         pool = self.pools[arch]
         r = rng.below(10)
         n = rng.range(1, 8) if r < 3 else rng.range(9, 50) if r < 7 else rng.range(51, 200)
-        nsec = 0 if rng.chance(1, 2) else rng.range(1, 3)
+        nsec = rng.choice([0, 0, 0, 0, 0, 0, 0, 0, 1, 1, 1, 2, 2, 2, 2, 3, 3, 3, 3, 3])   # 1..4 sections; 3-4 sections in 45% of the scripts
         flags = 0
         if rng.chance(7, 10):
             flags |= F_VALIDATE_ASM
@@ -612,10 +620,29 @@ class ScriptGen:
         edits = []
         nops = rng.range(1, 10)
         ops = [("rm", 20), ("mv", 15), ("ab", 10), ("aa", 10), ("rr", 12), ("cur", 12), ("emit", 35), ("add", 10), ("sn", 4)]
+        # section-centred edit scripts: SectionNodes are removed (alone / with their block), re-inserted elsewhere, and section() is called
+        # for active, removed and never-added sections, always followed by calls that show where the cursor went
+        nsec = st["nsec"]
+        sec_mode = nsec >= 1 and rng.chance(3, 5 if nsec >= 2 else 12)
+        sec_stats = {}
+        force = []          # kinds of the next emits: "SE:<n>" / "SE:last" / "SE:other" / "SE:any" / a call kind
+        if nsec:
+            w = 25 if sec_mode else 2
+            ops += [("rmsec", w), ("rmblock", w), ("addsec", w), ("se", w)]
+        if sec_mode:
+            nops = rng.range(3, 10)
+            if rng.chance(1, 2):
+                # make sure the cached section links have been computed with every section present
+                order = list(range(1, nsec + 1))
+                rng.shuffle(order)
+                for x in order:
+                    force += ["SE:%d" % x, "body"]
+                force += ["SE:any", "body"]
         tot = sum(w for _, w in ops)
         force_emit = 0
         tries = 0
-        while len(edits) < nops and tries < 60:
+        steps = 0           # forced follow-up emits do not use up the budget of edit steps
+        while (steps < nops or force) and tries < 160:
             tries += 1
             r = rng.below(tot)
             op = "emit"
@@ -627,6 +654,10 @@ class ScriptGen:
             if force_emit:
                 op = "emit"
                 force_emit -= 1
+            forced_kind = None
+            if force:
+                op = "emit"
+                forced_kind = force.pop(0)
             active = list(m.nodes)
             inactive = sorted(k for k in m.created if k not in m.nodes)
 
@@ -679,10 +710,69 @@ class ScriptGen:
                 elif op == "cur":
                     new.append(("cur", "-" if rng.chance(1, 12) else rng.choice(active), ""))
                     force_emit = 1
+                elif op == "rmsec":
+                    c = [k for k in active if k[0] == "S" and (k != "S0" or rng.chance(1, 4))]
+                    if not c:
+                        continue
+                    k = rng.choice(c)
+                    new.append(("rm", k, ""))
+                    r2 = rng.below(4)
+                    if r2 == 0:      # re-open the removed section (appended at the end), look at another one, come back
+                        force += ["SE:" + k[1:], "body", "SE:other", "SE:" + k[1:], "body"]
+                    elif r2 == 1:
+                        force += ["SE:other", "SE:last", "body"]
+                    elif r2 == 2:
+                        force += ["SE:any", "body"]
+                elif op == "rmblock":
+                    c = [i for i, k in enumerate(active) if k[0] == "S" and (k != "S0" or rng.chance(1, 4))]
+                    if not c:
+                        continue
+                    i = rng.choice(c)
+                    j = i
+                    while j + 1 < len(active) and active[j + 1][0] != "S":
+                        j += 1
+                    if rng.chance(1, 3):
+                        new.append(("cur", active[rng.range(i, j)], ""))
+                    new.append(("rr", active[i], active[j]))
+                    force += rng.choice([["SE:other", "SE:last", "body"], ["SE:last", "body"], ["SE:any", "body", "SE:last", "body"],
+                                         ["SE:" + active[i][1:], "body", "SE:other", "SE:" + active[i][1:], "body"]])
+                elif op == "addsec":
+                    c = [k for k in inactive if k[0] == "S"]
+                    if not c:
+                        continue
+                    k = rng.choice(c)
+                    how = rng.below(3)
+                    refs = list(active)
+                    if how == 0 or not refs:
+                        if rng.chance(1, 2) and refs:
+                            new.append(("cur", rng.choice(refs), ""))
+                        new.append(("add", k, ""))
+                    else:
+                        new.append(("aa" if how == 1 else "ab", k, rng.choice(refs)))
+                    force += rng.choice([["body", "SE:other", "SE:" + k[1:], "body"], ["SE:last", "body"], ["SE:any", "body"], ["body"]])
+                elif op == "se":
+                    force += ["SE:%d" % rng.below(nsec + 1), "body"] + (["SE:any", "body"] if rng.chance(1, 2) else [])
+                    continue
                 elif op == "emit":
                     kind = self.pick_kind(st)
                     if kind == "CN" and rng.chance(1, 2):
                         kind = "I"
+                    if forced_kind is not None:
+                        kind = forced_kind
+                        if kind == "body":
+                            kind = rng.choice(["I", "I", "EM", "EM", "ED", "B", "CM"])
+                        elif kind.startswith("SE:"):
+                            secs_active = [int(k[1:]) for k in active if k[0] == "S"]
+                            t = kind[3:]
+                            if t == "last":
+                                t = secs_active[-1] if secs_active else rng.below(nsec + 1)
+                            elif t == "other":
+                                c = secs_active[:-1] or secs_active
+                                t = rng.choice(c) if c else 0
+                            elif t == "any":
+                                t = rng.below(nsec + 1)
+                            st["force_sec"] = int(t)
+                            kind = "SE"
                     tmp = []
                     # labels bound in the model, not in generation history, decide what may be bound again
                     st["bound"] = set(int(k[1:]) for k in m.nodes if k[0] == "L")
@@ -690,6 +780,20 @@ class ScriptGen:
                     for c in tmp:
                         calls2[c["cid"]] = c
                         new.append(("emit", str(c["cid"]), ""))
+                # what the section-related edits of this step are (coverage accounting, from the model state before the step)
+                step_stats = []
+                for e in new:
+                    if e[0] == "emit" and calls2[int(e[1])]["kind"] == "SE":
+                        k = "S%d" % calls2[int(e[1])]["sec"]
+                        step_stats.append("section()_of_" + ("active" if k in m.nodes else "removed" if k in m.created else "never_added") + "_section")
+                    elif e[0] == "rm" and e[1][0] == "S":
+                        step_stats.append("section_node_removed_alone")
+                    elif e[0] == "rr":
+                        i, j = m.nodes.index(e[1]), m.nodes.index(e[2])
+                        if any(k[0] == "S" for k in m.nodes[i:j + 1]):
+                            step_stats.append("section_node_removed_in_range")
+                    elif e[0] in ("add", "aa", "ab", "mv") and e[1][0] == "S":
+                        step_stats.append("section_node_inserted_by_" + {"add": "add_node", "aa": "add_after", "ab": "add_before", "mv": "set_cursor+add_node"}[e[0]])
                 # apply to a copy first so that a failing precondition leaves the model untouched
                 trial = Model()
                 trial.__dict__.update({k: (set(v) if isinstance(v, set) else list(v) if isinstance(v, list) else v) for k, v in m.__dict__.items()})
@@ -697,18 +801,25 @@ class ScriptGen:
                     trial.edit(e, calls2)
                 m = trial
                 edits += new
+                if forced_kind is None:
+                    steps += 1
+                for x in step_stats:
+                    sec_stats[x] = sec_stats.get(x, 0) + 1
             except Invalid:
+                st.pop("force_sec", None)
                 for e in new:
                     if e[0] == "emit":
                         calls2.pop(int(e[1]), None)
                 continue
         used = set(int(e[1]) for e in edits if e[0] == "emit")
         script["edits"] = edits
+        script["sec_stats"] = sec_stats
+        script["sec_mode"] = sec_mode
         script["calls2"] = [calls2[c] for c in sorted(calls2) if c in used]
 
 
 # ----------------------------------------------------------------------------------------------------------------------
-# probes for the two side observations (run isolated, one script per process)
+# fixed probes (run isolated, one script per process)
 # ----------------------------------------------------------------------------------------------------------------------
 PROBE_INSTS = {
     "x64": ["nop 0 - 0", "push 0 - 1 R:gp64:3", "mov 0 - 2 R:gp32:1 R:gp32:2", "shld 0 - 3 R:gp32:1 R:gp32:2 I:3",
@@ -739,4 +850,20 @@ def probe_scripts(pools=None):
                  dict(cid=5, phase=1, kind="SE", text="0", sec=0), dict(cid=6, phase=1, kind="B", text="0", k=0, uses=[0]),
                  dict(cid=7, phase=1, kind="EM", text="1f2003d5" * 50), dict(cid=8, phase=1, kind="B", text="1", k=1, uses=[1])]
         out.append(("label-delta-200-in-1-byte", dict(sid="probe-delta-%s" % arch, arch=arch, flags=0, secs=[(".data", 0, 1, 1)], calls=calls, edits=[], calls2=[])))
+        # (4) a section that once had a successor becomes the last active section; section() must then continue at its end
+        em = lambda cid, ph, b: dict(cid=cid, phase=ph, kind="EM", text=b * 4)
+        se = lambda cid, ph, n: dict(cid=cid, phase=ph, kind="SE", text="%d" % n, sec=n)
+        secs3 = [(".data", 0, 1, 0), (".rodata", 0, 1, 0)]
+        calls = [se(1, 1, 1), em(2, 1, "a1"), se(3, 1, 2), em(4, 1, "b2"), se(5, 1, 0), em(6, 1, "c0")]      # T,X,Y ; links computed at call 5
+        #   (a) Y's SectionNode is removed together with its block; T is visited (links recomputed); X is re-entered
+        out.append(("section-becomes-last:remove-nodes", dict(sid="probe-seclast-a-%s" % arch, arch=arch, flags=0, secs=secs3, calls=list(calls),
+                    edits=[("rr", "S2", "4"), ("emit", "7", ""), ("emit", "8", ""), ("emit", "9", "")], calls2=[se(7, 2, 0), se(8, 2, 1), em(9, 2, "d1")])))
+        #   (b) X's SectionNode is removed and X re-opened (T,X,Y -> T,Y,X); T is visited; X is re-entered
+        out.append(("section-becomes-last:reopen", dict(sid="probe-seclast-b-%s" % arch, arch=arch, flags=0, secs=secs3, calls=list(calls),
+                    edits=[("rm", "S1", ""), ("emit", "7", ""), ("emit", "8", ""), ("emit", "9", ""), ("emit", "10", "")],
+                    calls2=[se(7, 2, 1), se(8, 2, 0), se(9, 2, 1), em(10, 2, "d1")])))
+        #   (c) Y's SectionNode alone is removed (its block falls to X), then re-inserted in front of X with add_before; both are re-entered
+        out.append(("section-becomes-last:add-before", dict(sid="probe-seclast-c-%s" % arch, arch=arch, flags=0, secs=secs3, calls=list(calls),
+                    edits=[("rm", "S2", ""), ("ab", "S2", "S1"), ("emit", "7", ""), ("emit", "8", ""), ("emit", "9", ""), ("emit", "10", ""), ("emit", "11", "")],
+                    calls2=[se(7, 2, 0), se(8, 2, 1), em(9, 2, "d1"), se(10, 2, 2), em(11, 2, "e2")])))
     return out
